@@ -61,6 +61,8 @@ class Scan:
     stmts: int = 0
     unmodelled: set = field(default_factory=set)
     events_by_entry: Dict[tuple, list] = field(default_factory=dict)
+    trans: Dict[str, tuple] = field(default_factory=dict)      # translation-typing findings (rule, where, what, func, path)
+    trans_ok: int = 0
 
 
 _CACHE = {}
@@ -236,5 +238,37 @@ def scan(index: Index) -> Scan:
                             sc.sites[s.key] = s
                     elif e.type == "construct":
                         sc.constructs.append((cls.name, name, e.cls.name, e.args, e.kwargs, e))
+                    # ---- translation typing (cxa/trans.py): decisions / solves / balls that depend on where the origin is
+                    if e.type == "cmp":
+                        from .trans import tr_of
+                        tl, trr = tr_of(e.left), tr_of(e.right)
+                        pos = ("T1", "TA", "TX")
+                        if (tl in pos and trr == "T0") or (trr in pos and tl == "T0"):
+                            k = f"{e.func.qualname}:cmp:{e.form}:{e.op if e.form == 'compare' else ''}:{tl}-{trr}"
+                            sc.trans.setdefault(k, ("TR-1", e.where(), f"`{_norm(e.node)[:70]}` decides on a quantity that depends on where the origin "
+                                                    f"is ({'a position' if 'T1' in (tl, trr) else 'a projection n.p / rotated coordinate' if 'TA' in (tl, trr) else 'origin dependent'} "
+                                                    f"compared with a translation-invariant value): the answer changes when shape and query are translated together",
+                                                    e.func.qualname, tuple(e.path)))
+                    elif e.type == "linsolve":
+                        from .trans import tr_of
+                        if tr_of(e.b) == "MIX":
+                            k = f"{e.func.qualname}:solve:mixed-rhs"
+                            sc.trans.setdefault(k, ("TR-3", e.where(), f"`{_norm(e.node)[:70]}`: the right-hand side mixes translation-invariant entries with "
+                                                    "entries n.p that move with the origin, while the matrix is translation invariant: the solution is "
+                                                    "neither relative nor absolute (it changes with the distance of the plane from the origin)",
+                                                    e.func.qualname, tuple(e.path)))
+                        else:
+                            sc.trans_ok += 1
     index._dimscan_result = sc
     return sc
+
+
+def report_translation(res, sc, pred, what):
+    """TR-1 / TR-3 (translation typing, cxa/trans.py) for the functions selected by pred(qualname, path)."""
+    n = 0
+    for k, (rule, where, text, func, path) in sorted(sc.trans.items()):
+        if pred(func, path):
+            n += 1
+            res.bad(rule, k, where, f"{func}: {text}")
+    if n == 0:
+        res.ok("TR-1", what, sample={"translation_typing": what, "solves_with_consistent_rhs": sc.trans_ok})
